@@ -429,7 +429,7 @@ def verify_config(contract, cfg, tier="quick", seed=0, timeout_s=10.0, spec_fact
 def _post(contract, W, cfg, inp, out):
     if isinstance(out, Raised) and not contract.may_raise:
         return [Clause("returns-normally", "true", False, None,
-                       f"the call returns normally on every input satisfying requires (raised {out.name})")]
+                       f"the call returns normally on every input satisfying requires (raised {out.name}: {str(out.exc)[:160]})")]
     try:
         cls = list(contract.post(W, cfg, inp, out))
     except (Unsupported, Undecided, DeadPath, PathBudget):
@@ -516,7 +516,7 @@ def discharge(cl, sp, timeout_s):
             return dict(status="proved", backend="normaliser", seconds=time.time() - t0, detail="")
         if c is False:
             # false under this path: is the path itself feasible? (it is: the path manager checked)
-            return dict(status="refuted", backend="normaliser", seconds=time.time() - t0, detail="clause is false on this path",
+            return dict(status="refuted", backend="normaliser", seconds=time.time() - t0, detail="clause is false on this path: " + str(cl.text)[:300],
                         model=None)
         return _solve(sp, [c], t0, timeout_s)
     # eq
